@@ -89,6 +89,17 @@ pub fn for_each_input(ctx: &mut Ctx, plan: &Plan, f: &mut dyn FnMut(&mut Ctx, &[
         plan.tokens_k = plan.tokens_k.saturating_sub(1).max(plan.tokens_k.min(2));
         plan.corpus_max_len = plan.corpus_max_len.min(64 << 10);
     }
+    // interpreter layers (Miri, valgrind): fixed small per-shard budgets for the random parts
+    let tiny = ctx.scale_pct <= 2;
+    let budget = |ctx: &Ctx, planned: u64, per_shard: u64| -> u64 {
+        if planned == 0 {
+            0
+        } else if tiny {
+            per_shard
+        } else {
+            ctx.scaled(planned) / ctx.nshards as u64 + 1
+        }
+    };
     let plan = &plan;
     let mut rng = ctx.rng(1);
     let mut digits = Vec::new();
@@ -139,7 +150,7 @@ pub fn for_each_input(ctx: &mut Ctx, plan: &Plan, f: &mut dyn FnMut(&mut Ctx, &[
         }
     }
     if plan.grammar_docs > 0 {
-        let n = ctx.scaled(plan.grammar_docs) / ctx.nshards as u64 + 1;
+        let n = budget(ctx, plan.grammar_docs, 5);
         let opts = DocOpts::default();
         let mut prev: Vec<u8> = Vec::new();
         for k in 0..n {
@@ -186,7 +197,7 @@ pub fn for_each_input(ctx: &mut Ctx, plan: &Plan, f: &mut dyn FnMut(&mut Ctx, &[
         let corpus = load_corpus(plan.corpus_max_len);
         ctx.add("corpus_files_seen", 0);
         for (i, (_name, data)) in corpus.iter().enumerate() {
-            if !ctx.owns(i as u64) {
+            if !ctx.owns(i as u64) || (tiny && i >= ctx.nshards as usize) {
                 continue;
             }
             ctx.count("corpus_files_seen");
@@ -202,7 +213,7 @@ pub fn for_each_input(ctx: &mut Ctx, plan: &Plan, f: &mut dyn FnMut(&mut Ctx, &[
         }
     }
     if plan.random_bytes > 0 {
-        let n = ctx.scaled(plan.random_bytes) / ctx.nshards as u64 + 1;
+        let n = budget(ctx, plan.random_bytes, 20);
         for _ in 0..n {
             let d = random_bytes(&mut rng, plan.random_len);
             if !f(ctx, &d, Src::Random, &mut rng) {
@@ -211,7 +222,7 @@ pub fn for_each_input(ctx: &mut Ctx, plan: &Plan, f: &mut dyn FnMut(&mut Ctx, &[
         }
     }
     if plan.random_atoms > 0 {
-        let n = ctx.scaled(plan.random_atoms) / ctx.nshards as u64 + 1;
+        let n = budget(ctx, plan.random_atoms, 15);
         for _ in 0..n {
             let d = random_atoms(&mut rng, 12);
             if !f(ctx, &d, Src::Random, &mut rng) {
